@@ -102,6 +102,15 @@ func Open(prop string) *Rec {
 	return r
 }
 
+// Planned declares the total number of case indices of the plan (over all
+// children). The driver compares it with the cases actually begun, so that a
+// child that stopped early is not mistaken for full coverage.
+func (r *Rec) Planned(n int) {
+	r.mu.Lock()
+	r.res.Notes["planned_cases"] = n
+	r.mu.Unlock()
+}
+
 // Progress tells the watchdog that the harness is alive.
 func (r *Rec) Progress() { r.progress.Add(1) }
 
@@ -111,6 +120,9 @@ func (r *Rec) Progress() { r.progress.Add(1) }
 func (r *Rec) Begin(idx int, desc string) {
 	r.curCase.Store(int64(idx))
 	r.progress.Add(1)
+	r.mu.Lock()
+	r.res.Counters["cases_begun"]++
+	r.mu.Unlock()
 	if r.journal != nil {
 		b := make([]byte, 0, len(desc)+24)
 		b = append(b, "case="...)
@@ -323,12 +335,18 @@ func (r *Rec) Fatalf(format string, a ...any) {
 
 // Stacks returns a dump of all goroutines.
 func Stacks() string {
-	buf := make([]byte, 1<<20)
+	stackMu.Lock()
+	defer stackMu.Unlock()
 	for {
-		n := runtime.Stack(buf, true)
-		if n < len(buf) {
-			return string(buf[:n])
+		n := runtime.Stack(stackBuf, true)
+		if n < len(stackBuf) {
+			return string(stackBuf[:n])
 		}
-		buf = make([]byte, 2*len(buf))
+		stackBuf = make([]byte, 2*len(stackBuf))
 	}
 }
+
+var (
+	stackMu  sync.Mutex
+	stackBuf = make([]byte, 64<<10)
+)
